@@ -14,8 +14,10 @@ import (
 
 	chain "github.com/comdex-official/comdex/app"
 	assettypes "github.com/comdex-official/comdex/x/asset/types"
+	esmtypes "github.com/comdex-official/comdex/x/esm/types"
 	"github.com/comdex-official/comdex/x/lend"
 	lendtypes "github.com/comdex-official/comdex/x/lend/types"
+	liqv1types "github.com/comdex-official/comdex/x/liquidation/types"
 	liqV2types "github.com/comdex-official/comdex/x/liquidationsV2/types"
 	markettypes "github.com/comdex-official/comdex/x/market/types"
 )
@@ -41,6 +43,7 @@ type c08Fix struct {
 	users    []sdk.AccAddress
 	userNo   map[string]int
 	denoms   []string // all tracked denoms in a fixed order
+	otherApp uint64   // a second app (not the lend app)
 }
 
 func c08Dec(s string) sdk.Dec { return sdk.MustNewDecFromStr(s) }
@@ -69,6 +72,7 @@ func c08Setup(t *testing.T, tr *tracer) (*c08Fix, sdk.Context) {
 		}
 	}
 	other := addAppRecord(t, a, ctx, "cswap")
+	f.otherApp = other
 	decs := []int64{1000000, 1000000, 100000000, 1000000}
 	for i := 0; i < 4; i++ {
 		d := fmt.Sprintf("uasset%d", i+1)
@@ -106,16 +110,16 @@ func c08Setup(t *testing.T, tr *tracer) (*c08Fix, sdk.Context) {
 		f.pools = append(f.pools, p.PoolID)
 		f.poolMod[p.PoolID] = p.ModuleName
 	}
-	rp := func(id uint64, uopt, base, s1, s2 string, stable bool, sb, ss1, ss2, ltv, lt, pen, bonus, rf string, c uint64, iso bool, eltv string) {
+	rp := func(id uint64, uopt, base, s1, s2 string, stable bool, sb, ss1, ss2, ltv, lt, pen, bonus, rf string, c uint64, iso bool, eltv, epen string) {
 		k.SetAssetRatesParams(ctx, lendtypes.AssetRatesParams{AssetID: id, UOptimal: c08Dec(uopt), Base: c08Dec(base), Slope1: c08Dec(s1), Slope2: c08Dec(s2),
 			EnableStableBorrow: stable, StableBase: c08Dec(sb), StableSlope1: c08Dec(ss1), StableSlope2: c08Dec(ss2), Ltv: c08Dec(ltv),
 			LiquidationThreshold: c08Dec(lt), LiquidationPenalty: c08Dec(pen), LiquidationBonus: c08Dec(bonus), ReserveFactor: c08Dec(rf),
-			CAssetID: c, IsIsolated: iso, ELtv: c08Dec(eltv), ELiquidationThreshold: c08Dec("0.95"), ELiquidationPenalty: c08Dec("0.01")})
+			CAssetID: c, IsIsolated: iso, ELtv: c08Dec(eltv), ELiquidationThreshold: c08Dec("0.95"), ELiquidationPenalty: c08Dec(epen)})
 	}
-	rp(A[0], "0.75", "0.002", "0.07", "1.25", false, "0.0", "0.0", "0.0", "0.7", "0.75", "0.05", "0.05", "0.2", f.cassets[0], false, "0.9")
-	rp(A[1], "0.5", "0.002", "0.08", "2.0", false, "0.0", "0.0", "0.0", "0.5", "0.55", "0.05", "0.05", "0.2", f.cassets[1], false, "0.9")
-	rp(A[2], "0.8", "0.002", "0.06", "0.6", true, "0.04", "0.04", "0.06", "0.8", "0.85", "0.025", "0.025", "0.1", f.cassets[2], false, "0.92")
-	rp(A[3], "0.65", "0.002", "0.08", "1.5", true, "0.03", "0.05", "0.5", "0.6", "0.65", "0.05", "0.05", "0.2", f.cassets[3], true, "0.9")
+	rp(A[0], "0.75", "0.002", "0.07", "1.25", false, "0.0", "0.0", "0.0", "0.7", "0.75", "0.05", "0.05", "0.2", f.cassets[0], false, "0.9", "0.08") // asset 1 (the e-mode pair's asset in): e-mode penalty ABOVE the ordinary one
+	rp(A[1], "0.5", "0.002", "0.08", "2.0", false, "0.0", "0.0", "0.0", "0.5", "0.55", "0.05", "0.05", "0.2", f.cassets[1], false, "0.9", "0.01")
+	rp(A[2], "0.8", "0.002", "0.06", "0.6", true, "0.04", "0.04", "0.06", "0.8", "0.85", "0.025", "0.025", "0.1", f.cassets[2], false, "0.92", "0.01")
+	rp(A[3], "0.65", "0.002", "0.08", "1.5", true, "0.03", "0.05", "0.5", "0.6", "0.65", "0.05", "0.05", "0.2", f.cassets[3], true, "0.9", "0.01")
 	addp := func(in, out uint64, inter bool, outPool uint64, emode bool) uint64 {
 		if err := k.AddLendPairsRecords(ctx, lendtypes.Extended_Pair{AssetIn: in, AssetOut: out, IsInterPool: inter, AssetOutPoolID: outPool, MinUsdValueLeft: 1000000}); err != nil {
 			t.Fatal(err)
@@ -174,6 +178,7 @@ func c08Setup(t *testing.T, tr *tracer) (*c08Fix, sdk.Context) {
 		setPrice(a, ctx, A[j], prices[j], true)
 	}
 	c08LiqSetup(f, ctx) // second-generation liquidation of lend positions is enabled for the lend app
+	c08CloseSetup(t, f, ctx) // a bidder (outside the projection) and the app's reserve for exhausted-collateral closes
 	// ---- configuration for the model
 	for _, id := range append(append([]uint64{}, f.assets...), f.cassets...) {
 		tr.p("cfg asset %d %d", id, f.decimals[id])
@@ -190,7 +195,8 @@ func c08Setup(t *testing.T, tr *tracer) (*c08Fix, sdk.Context) {
 	}
 	for _, id := range A {
 		r, _ := k.GetAssetRatesParams(ctx, id)
-		tr.p("cfg rates %d %s %s %d %s %s", id, r.Ltv.BigInt().String(), r.ELtv.BigInt().String(), r.CAssetID, b2s(r.EnableStableBorrow), b2s(r.IsIsolated))
+		tr.p("cfg rates %d %s %s %d %s %s %s %s", id, r.Ltv.BigInt().String(), r.ELtv.BigInt().String(), r.CAssetID, b2s(r.EnableStableBorrow), b2s(r.IsIsolated),
+			r.LiquidationPenalty.BigInt().String(), r.ELiquidationPenalty.BigInt().String())
 	}
 	for _, m := range k.GetAllAssetToPair(ctx) {
 		var sb strings.Builder
@@ -288,6 +294,27 @@ func c08Project(f *c08Fix, ctx sdk.Context, tr *tracer) {
 	}
 	tr.p("pr%s", sb.String())
 	tr.p("ct %d %d", k.GetUserLendIDCounter(ctx), k.GetUserBorrowIDCounter(ctx))
+	// ESM kill switch per app, pool ids in the depreciation records (in record order)
+	var kl []uint64
+	for _, ap := range []uint64{f.app, f.otherApp} {
+		if ks, found := f.a.EsmKeeper.GetKillSwitchData(ctx, ap); found && ks.BreakerEnable {
+			kl = append(kl, ap)
+		}
+	}
+	var dp []uint64
+	if recs, found := k.GetPoolDepreciateRecords(ctx); found {
+		for _, r := range recs.IndividualPoolDepreciate {
+			dp = append(dp, r.PoolID)
+		}
+	}
+	// borrow positions the generation-1 liquidation holds a locked-vault record for
+	var v1 []uint64
+	for _, lv := range f.a.LiquidationKeeper.GetLockedVaults(ctx) {
+		if lv.GetBorrowMetaData() != nil {
+			v1 = append(v1, lv.OriginalVaultId)
+		}
+	}
+	tr.p("fl %s %s %s", c08Ints(kl), c08Ints(dp), c08Ints(v1))
 	tr.p("end")
 }
 
@@ -464,6 +491,7 @@ func TestC08(t *testing.T) {
 		now := baseTime
 		height := int64(2)
 		nops := 20 + cr.intn(31)
+		v1case := cr.chance(12)
 		tr.p("case %d %d", ci, nops)
 		c08Project(f, ctx, tr)
 		for oi := 0; oi < nops; oi++ {
@@ -529,15 +557,43 @@ func TestC08(t *testing.T) {
 				}
 				return myBorrows[cr.intn(len(myBorrows))], true
 			}
-			kind := cr.intn(106) // 100..105: hand-over of a position to a liquidation auction
-			warm := oi < 5       // the first messages of a history supply liquidity
+			// 100..105: hand-over of a position to a liquidation auction; 106..115: a bid on the auction of a handed-over
+			// position; 116..121 RepayWithdraw; 122..126 FundModuleAccounts; 127..129 FundReserveAccounts
+			// 130, 131: esm MsgKillSwitch; 132: pool depreciation (governance); 133: generation-1 hand-over
+			// (x/liquidation MsgLiquidateBorrow), only in one history out of eight and in its second half
+			kind := cr.intn(133)
+			if v1case && oi >= nops/2 && cr.chance(10) {
+				kind = 133
+			}
+			warm := oi < 5 // the first messages of a history supply liquidity
+			if ks, found := a.EsmKeeper.GetKillSwitchData(ctx, f.app); found && ks.BreakerEnable && cr.chance(35) {
+				kind = 130 // the switch is on: most likely switched off again soon
+			}
+			if kind == 132 && (oi < nops/2 || cr.chance(60)) {
+				kind = 40
+			}
+			var flagged []lendtypes.BorrowAsset
+			for _, b := range borrows {
+				if b.IsLiquidated {
+					flagged = append(flagged, b)
+				}
+			}
+			if len(flagged) > 0 && cr.chance(30) {
+				kind = 106
+			}
+			if len(flagged) == 0 && ((kind >= 106 && kind < 116 && cr.chance(85)) || (len(borrows) > 0 && cr.chance(6))) {
+				kind = 100 // nothing to bid on yet: hand a position over first
+			}
+			if kind == 133 && len(flagged) == len(borrows) {
+				kind = 40 // no open position to hand over: borrow first
+			}
 			if warm {
 				kind = 0
 			}
 			if len(myLends) == 0 && kind >= 14 && kind < 94 && cr.chance(85) {
 				kind = 0
 			}
-			if len(myBorrows) == 0 && kind >= 55 && kind < 86 && cr.chance(80) {
+			if len(myBorrows) == 0 && ((kind >= 55 && kind < 86) || (kind >= 116 && kind < 122)) && cr.chance(80) {
 				kind = 40
 			}
 			nrich := 0
@@ -552,6 +608,141 @@ func TestC08(t *testing.T) {
 			var msg sdk.Msg
 			var line string
 			switch {
+			case kind >= 106 && kind < 116: // MsgPlaceMarketBid on the generation-2 auction of a handed-over position
+				var id uint64
+				switch {
+				case len(flagged) > 0 && !cr.chance(8):
+					id = flagged[cr.intn(len(flagged))].ID
+				case len(borrows) > 0:
+					id = borrows[cr.intn(len(borrows))].ID // not handed over: no auction
+				default:
+					id = uint64(1 + cr.intn(4))
+				}
+				amtClass := []int{0, 0, 0, 1, 1, 2, 2, 3, 4, 0}[cr.intn(10)]
+				line := c08Bid(f, ctx, tr, id, amtClass, int64(5+cr.intn(90)), cr.chance(50))
+				tr.p("op %d %s", dt, line)
+				c08Project(f, ctx, tr)
+				continue
+			case kind >= 116 && kind < 122: // MsgRepayWithdraw
+				b, _ := pickBorrow()
+				msg = lendtypes.NewMsgRepayWithdraw(us, b.ID)
+				line = c08RepayWithdrawLine(f, ctx, un, us, b)
+			case kind >= 122 && kind < 127: // MsgFundModuleAccounts
+				pi := cr.intn(2)
+				pool, _ := k.GetPool(ctx, f.pools[pi])
+				poolID := pool.PoolID
+				asset := pool.AssetData[cr.intn(len(pool.AssetData))].AssetID
+				if cr.chance(10) {
+					asset = f.assets[cr.intn(4)]
+				}
+				if cr.chance(6) {
+					poolID = 3 + uint64(cr.intn(2))
+				}
+				if cr.chance(5) {
+					asset = 40 + uint64(cr.intn(3))
+				}
+				denom := f.idDenom[asset]
+				if cr.chance(12) || denom == "" {
+					denom = f.denoms[cr.intn(8)]
+				}
+				amt := c08FundAmount(cr)
+				msg = lendtypes.NewMsgFundModuleAccounts(poolID, asset, us, sdk.NewCoin(denom, sdk.NewIntFromBigInt(amt)))
+				line = fmt.Sprintf("fundmod %d %d %d %d %s", un, poolID, asset, f.denomID[denom], amt)
+			case kind >= 133: // generation 1: x/liquidation MsgLiquidateBorrow
+				b, _ := pickBorrow()
+				if !cr.chance(10) { // an open position; its collateral price falls first
+					var open []lendtypes.BorrowAsset
+					for _, x := range borrows {
+						if !x.IsLiquidated {
+							open = append(open, x)
+						}
+					}
+					b = open[cr.intn(len(open))]
+				}
+				if !b.IsLiquidated && b.PairID != 0 && cr.chance(85) {
+					pr, _ := k.GetLendPair(ctx, b.PairID)
+					if tw, ok := a.MarketKeeper.GetTwa(ctx, pr.AssetIn); ok && tw.Twa > 10 {
+						// to just below the price at which the position sits on its liquidation threshold
+						np := tw.Twa * uint64(30+cr.intn(55)) / 100
+						ai, _ := a.AssetKeeper.GetAsset(ctx, pr.AssetIn)
+						ao, _ := a.AssetKeeper.GetAsset(ctx, pr.AssetOut)
+						rp, _ := k.GetAssetRatesParams(ctx, pr.AssetIn)
+						var ratio sdk.Dec
+						var rerr error
+						if pn, _ := safely(func() {
+							ratio, rerr = k.CalculateCollateralizationRatio(ctx, b.AmountIn.Amount, ai, b.AmountOut.Amount.Add(b.InterestAccumulated.TruncateInt()), ao)
+						}); !pn && rerr == nil && ratio.IsPositive() && rp.LiquidationThreshold.IsPositive() {
+							thr := rp.LiquidationThreshold
+							if b.BridgedAssetAmount.Amount.IsPositive() {
+								thr = thr.MulInt64(3).QuoInt64(4)
+							}
+							x := sdk.NewDec(int64(tw.Twa)).Mul(ratio).Quo(thr).MulInt64(int64(60 + cr.intn(39))).QuoInt64(100).TruncateInt64()
+							if x >= 1 {
+								np = uint64(x)
+							}
+						}
+						a.MarketKeeper.SetTwa(ctx, markettypes.TimeWeightedAverage{AssetID: pr.AssetIn, ScriptID: 12, Twa: np, CurrentIndex: 0,
+							IsPriceActive: true, PriceValue: []uint64{np}, DiscardedHeightDiff: -1})
+						tr.p("op %d setprice %d %d ok", dt, pr.AssetIn, np)
+						c08Project(f, ctx, tr)
+						dt = 0
+					}
+				}
+				msg = &liqv1types.MsgLiquidateBorrowRequest{From: us, BorrowId: b.ID}
+				line = c08V1Env(f, ctx, b.ID, msg)
+			case kind >= 130 && kind < 132: // esm MsgKillSwitch by an admin (sometimes by somebody else)
+				admins := a.EsmKeeper.AdminParam(ctx)
+				from, isAdmin := us, false
+				if len(admins) > 0 && !cr.chance(12) {
+					from, isAdmin = admins[0], true
+				}
+				app := f.app
+				if cr.chance(12) {
+					app = []uint64{f.otherApp, 99}[cr.intn(2)]
+				}
+				cur, _ := a.EsmKeeper.GetKillSwitchData(ctx, app)
+				on := !cur.BreakerEnable
+				if cr.chance(15) {
+					on = !on
+				}
+				msg = &esmtypes.MsgKillRequest{From: from, KillSwitchParams: &esmtypes.KillSwitchParams{AppId: app, BreakerEnable: on}}
+				line = fmt.Sprintf("kill %s %d %s", b2s(isAdmin), app, b2s(on))
+			case kind == 132: // governance: AddPoolDepreciateProposal for one pool (the handler runs like a message: all or nothing)
+				poolID := f.pools[cr.intn(2)]
+				if cr.chance(10) {
+					poolID = 3
+				}
+				cc, write := ctx.CacheContext()
+				var err error
+				class := "ok"
+				if pn, _ := safely(func() {
+					err = k.HandlePoolDepreciateProposal(cc, &lendtypes.AddPoolDepreciateProposal{Title: "t", Description: "d",
+						PoolDepreciate: lendtypes.PoolDepreciate{IndividualPoolDepreciate: []lendtypes.IndividualPoolDepreciate{{PoolID: poolID}}}})
+				}); pn {
+					class = "panic"
+				} else if err != nil {
+					class = "err"
+				} else {
+					write()
+				}
+				tr.p("op %d depreciate %d %s", dt, poolID, class)
+				c08Project(f, ctx, tr)
+				continue
+			case kind >= 127: // MsgFundReserveAccounts
+				asset := f.assets[cr.intn(4)]
+				if cr.chance(8) {
+					asset = f.cassets[cr.intn(4)]
+				}
+				if cr.chance(5) {
+					asset = 40 + uint64(cr.intn(3))
+				}
+				denom := f.idDenom[asset]
+				if cr.chance(12) || denom == "" {
+					denom = f.denoms[cr.intn(8)]
+				}
+				amt := c08FundAmount(cr)
+				msg = lendtypes.NewMsgFundReserveAccounts(asset, us, sdk.NewCoin(denom, sdk.NewIntFromBigInt(amt)))
+				line = fmt.Sprintf("fundreserve %d %d %d %s", un, asset, f.denomID[denom], amt)
 			case kind >= 100: // MsgLiquidateInternalKeeper{LiqType 1}: LiquidateIndividualBorrow -> UpdateLockedBorrows
 				b, _ := pickBorrow()
 				if len(borrows) > 0 && cr.chance(60) { // prefer the open position with the worst ratio
@@ -572,7 +763,7 @@ func TestC08(t *testing.T) {
 						}
 					}
 				}
-				if found := !b.IsLiquidated && b.PairID != 0 && cr.chance(50); found { // the collateral asset crashes first (an oracle move of its own)
+				if found := !b.IsLiquidated && b.PairID != 0 && cr.chance(65); found { // the collateral asset crashes first (an oracle move of its own)
 					pr, _ := k.GetLendPair(ctx, b.PairID)
 					if tw, ok := a.MarketKeeper.GetTwa(ctx, pr.AssetIn); ok && tw.Twa > 10 {
 						np := tw.Twa * uint64(20+cr.intn(50)) / 100
